@@ -99,6 +99,9 @@ real_enum!(Single: Only = b"ONLY");
 real_enum!(Windows: Rectangular = b"RECTangular", Hanning = b"HANNing", Hamming = b"HAMMing", Flattop = b"FLATtop", Uniform = b"UNIForm");
 real_enum!(StateE: State = b"STATe", Range = b"RANGe", Sense = b"SENSe", Trace = b"TRACe", Time = b"TIMe");
 
+// enumerations with more variants than an 8- or 10-bit ordinal can number (300 numbered channels, 1100 words)
+include!("enums_large.rs");
+
 /// the enumeration the library itself derives and exports for `<header>? MAX|MIN|DEF` queries
 pub const NUMERIC_VALUE_QUERY: EnumInfo = {
     use scpi_contrib::scpi1999::NumericValueQuery as Q;
@@ -179,7 +182,7 @@ pub static REALISTIC: &[EnumInfo] = &[
     LEVEL_INFO,
     POLARITY_INFO,
     OnOff::INFO, AutoOnOff::INFO, OffOnOnce::INFO, MinMaxDef::INFO, UpDown::INFO, InfNinfNan::INFO, TrigSource::INFO, Slope::INFO, DataFormat::INFO, ByteOrder::INFO, Coupling::INFO,
-    Function::INFO, Channel::INFO, ChannelWide::INFO, TrueFalse::INFO, YesNo::INFO, ZeroOne::INFO, LowHigh::INFO, NoneAll::INFO, Unit::INFO, Single::INFO, Windows::INFO, StateE::INFO,
+    Chan300::INFO, Big1100::INFO, Function::INFO, Channel::INFO, ChannelWide::INFO, TrueFalse::INFO, YesNo::INFO, ZeroOne::INFO, LowHigh::INFO, NoneAll::INFO, Unit::INFO, Single::INFO, Windows::INFO, StateE::INFO,
 ];
 
 /// generated corpus + realistic definitions
